@@ -79,6 +79,9 @@ class EG:
             # the MathML function table; the argument u = x / (1 + x^2) lies in [-0.5, 0.5]
             self.feats.add("mathml_function")
             x = self.expr(depth - 1)
+            if d(st.integers(0, 2)) == 0:
+                x = ["-", x, ["num", 3.0]]  # usually negative: u is still in [-0.5, 0.5]
+                self.feats.add("mathml_function_of_negative_value")
             u = ["/", x, ["+", ["num", 1.0], ["*", x, x]]]
             f = d(st.sampled_from(sorted(FN1)))
             shift = FN1[f][1]
@@ -117,6 +120,10 @@ class EG:
             return ["pow", base, ex]
         if k == "exp":
             self.feats.add("transcendental")
+            if d(st.integers(0, 3)) == 0:
+                # |e^-x|: computer algebra may answer e^-re(x)
+                self.feats.add("abs_of_exponential")
+                return ["fn1", "abs", ["exp", ["neg", self.expr(depth - 1)]]]
             return ["exp", ["neg", self.expr(depth - 1)]]
         if k == "ln":
             self.feats.add("transcendental")
@@ -555,15 +562,22 @@ def _has_xor(doc: dict) -> bool:
 def compare(doc: dict, m, amounts: list[float], t: float, out: Outcome, tag: str) -> None:
     sp = {s["id"]: s for s in doc["species"]}
     try:
-        init_amount, const, _, _, _, comp, _ = reference(doc, None, 0.0)
+        init_amount, const, dn0, fl0, rv0, comp, _ = reference(doc, None, 0.0)
     except (ZeroDivisionError, OverflowError, ValueError):
         out.skipped = "reference-undefined"
         return
+    ref0 = [*init_amount.values(), *const.values(), *dn0.values(), *fl0.values(), *rv0.values()]
+    ref0_ok = all(not isinstance(v, complex) and v == v and abs(v) < 1e9 for v in ref0)
     try:
         ic = dict(m.get_initial_conditions())
         args0 = m.get_args()
     except (TypeError, ZeroDivisionError, OverflowError, ValueError) as e:
-        out.skipped = f"imported-model-undefined-at-initial-state:{type(e).__name__}"
+        if not ref0_ok:
+            out.skipped = f"imported-model-undefined-at-initial-state:{type(e).__name__}"
+            return
+        # the document's mathematics is defined (real, finite) at its own initial state, the imported model's is not
+        root_ = "ids:keywords" if "ids:keywords" in doc["features"] else ("ids:module_names" if "ids:module_names" in doc["features"] else "plain-ids")
+        out.bad(f"{tag}imported-model-cannot-be-evaluated:{type(e).__name__}:{root_}", error=repr(e)[:200])
         return
     except Exception as e:  # noqa: BLE001
         root_ = "ids:keywords" if "ids:keywords" in doc["features"] else ("ids:module_names" if "ids:module_names" in doc["features"] else "plain-ids")
@@ -804,7 +818,7 @@ def _examine(case: dict, ctx) -> Outcome:
 
 def floors(ctx) -> list[str]:
     c = []
-    for k in ["mode:plain", "mode:session", "mode:keywords", "mode:module_names", "function_definition", "rule_defined_stoichiometry", "compartment_size_not_1", "piecewise"]:
+    for k in ["mode:plain", "mode:session", "mode:keywords", "mode:module_names", "function_definition", "rule_defined_stoichiometry", "compartment_size_not_1", "piecewise", "mathml_function", "mathml_function_of_negative_value", "logical_condition", "abs_of_exponential"]:
         if ctx.classes.get(k, 0) < 5:
             c.append(f"class {k} only {ctx.classes.get(k, 0)}")
     return c
